@@ -3,7 +3,6 @@ package main
 import (
 	"fmt"
 	"go/ast"
-	"strings"
 
 	"daecheck/internal/core"
 )
@@ -13,14 +12,15 @@ func main() {
 	if err != nil {
 		panic(err)
 	}
-	f := p.Func("control", "NewControlPlane")
+	f := p.Func("component/dns", "Dns.ResponseSelect")
 	g := f.Graph()
-	for _, b := range g.CFG.Blocks {
-		for _, n := range b.Nodes {
-			if e, ok := n.(ast.Expr); ok && strings.Contains(core.ExprStr(e), "OutboundUserDefinedMax") {
-				fmt.Println(b.Index, b.Kind, b.Live, len(b.Succs), len(b.Nodes), core.ExprStr(e))
-				_, _, _, ok := g.Cond(b)
-				fmt.Println("cond ok", ok, f.Info().Types[e].Type)
+	for _, cs := range g.Conds(func(e ast.Expr) bool { return core.ExprStr(e) == "!ok" }) {
+		fmt.Println(p.Pos(cs.Cond.Pos()), len(cs.True.Nodes))
+		for _, n := range cs.True.Nodes {
+			fmt.Printf("  %T %s\n", n, core.ExprStr2(n))
+			if as, ok := n.(*ast.AssignStmt); ok {
+				tv := f.Info().Types[as.Rhs[0]]
+				fmt.Println("   val", tv.Value)
 			}
 		}
 	}
